@@ -33,13 +33,15 @@ Tolerance of the pressure oracle, per evaluation (deviation from DESIGN recorded
     P_trace admissibility predicate (<= 1e-3 S) and recorded; observed: <= 1e-12 S for
     s >~ 0.05, up to 1e-3 S for s ~ 1e-2 because findLocalMinimum's scipy tolerance is
     absolute (C07/C11 business, not judged here).
-    tau = quad_tol(rho) * S + 16 * fd_bound + 256 eps (S + |V|max)
+    tau = quad_tol(rho, a_nodes) * S + 16 * fd_bound + 256 eps (S + |V|max)
   S         = int dz sum_i |dV/dphi_i dphi_i/dz| (closed form, fine trapezoid): the mass of
               the integrand.  DESIGN states the bound relative to |Delta V|; Delta V -> 0
               at T_c while the quadrature error does not, so S (>= |Delta V|) is the scale
               an accuracy model can refer to.  |Delta V|/S is recorded.
-  quad_tol  = max(1e-8, 30 exp(-6 rho)), rho = nodes per wall width of the narrowest wall
-              on the real grid (see quad_tol() for the calibration).  DESIGN's flat 1e-8
+  quad_tol  = max(1e-8, 30 exp(-6 rho) + 0.03 exp(-5 a_nodes)), rho = nodes per wall width
+              of the narrowest wall, a_nodes = nodes per smoothing width of the map's steps,
+              both on the real grid (see quad_tol() for the calibration).  40 % of the
+              evaluations use unequal tails (remap_grid).  DESIGN's flat 1e-8
               for M >= 40 holds for rho >= 3.64 only (observed <= 5.3e-10 there); a
               two-field wall with width ratio 3 and |offset| 2 at M = 40 has rho ~ 1 and an
               error of 5e-4 S on the unchanged tree: the discretisation, not a defect.
@@ -64,7 +66,11 @@ RULE = ("one real WallGoManager/EOM per case on a random zoo potential (bag1: T-
         "random unit factor s in [1e-2,1e2], random signed-permutation/shift relabelling of "
         "field space in half of the cases, grid size M in {40,50,64,80,100}; per case K wall "
         "shapes: L*Tn log-uniform in [0.3,60], second width within a factor 3 of the first, "
-        "offsets in [-2,2] (first offset 0 in 60 % as the solver keeps it), temperature of "
+        "offsets in [-2,2] (first offset 0 in 60 % as the solver keeps it); grid mapped by the "
+        "real _updateGrid with equal tails (55 %), by the real _updateGrid as an off-equilibrium "
+        "run maps it, tails mfp*gamma / mfp/gamma up to 20 L (28 %), or by a direct "
+        "changePositionFalloffScale with independent tails in [lower bound, 20 L] and a displaced "
+        "centre (17 %); temperature of "
         "the evaluation uniform in the common tabulated range of both phases (poly: constant "
         "profile; bag1: +-5 % iid noise or smooth ramp + noise, T+ != T-).  Every judged "
         "evaluation is non-trivial; distinct by (potential, M, shape, T).")
@@ -84,12 +90,13 @@ CHUNK = 1
 MS = (40, 50, 64, 80, 100)
 K_QUAD = 1e-8      # DESIGN C09 constant for resolved shapes
 C_RES, B_RES = 30.0, 6.0   # under-resolved shapes: tau/S = C exp(-B rho), see quad_tol()
+C_MAP, B_MAP = 0.03, 5.0   # map steps resolved by few nodes (long/unequal tails), see quad_tol()
 P_TRACE = 1e-3     # admissible free-energy excess of a passed end point, in units of S
                    # (detects a phase hop; the identity itself is judged for the end points
                    # actually passed, so a slightly off-minimum end point costs nothing)
 
 
-def quad_tol(rho):
+def quad_tol(rho, a_nodes=math.inf):
     """Accuracy model of the Gauss-Lobatto quadrature of a sech^2-type integrand, relative
     to the integrand mass S.  rho = wall width / largest node spacing across that wall
     (narrowest wall decides; oracles/c09_ref.resolution on the real grid's nodes).
@@ -101,8 +108,19 @@ def quad_tol(rho):
     envelope does not move with the sample size.  C = 30 leaves a factor 11, the floor
     1e-8 a factor 19.  A two-field wall with width ratio 3 and |offset| 2 on M = 40 has
     rho ~ 1 (error 5e-4 S): the factor-3/|offset|<=2/M>=40 box of the property is *not*
-    uniformly resolved to 1e-8, which is why the tolerance follows rho."""
-    return max(K_QUAD, C_RES * math.exp(-B_RES * rho))
+    uniformly resolved to 1e-8, which is why the tolerance follows rho.
+
+    Second term (added with the unequal-tail workload): the three-scale map's Jacobian
+    contains smoothed steps of width aIn/aOut at chi = -+r.  With tails of 10-20 L (what an
+    off-equilibrium run uses) a ~ 0.05-0.1, i.e. a_nodes = min(aIn, aOut) M / pi is 1-3
+    nodes, and the Gauss-Lobatto rule sees a near-kink in dz/dchi: on the unchanged tree
+    (quick seeds 0-4 + thorough seed 0, 2850 evaluations on unequal/long tails) the error
+    at rho >= 2.7 falls from 2.4e-6 S (a_nodes 1.2) over 1.5e-7 (1.9), 1.2e-9 (2.7) to
+    <= 4e-11 (>= 4), and exceeded the rho-only model by up to 1.6x.  With
+    C_MAP exp(-B_MAP a_nodes) = 0.03 exp(-5 a_nodes) the worst err/tol is 0.065 on such
+    grids (0.094 on equal-tail grids, unchanged).  Equal tails at the lower bound have
+    a_nodes > 100, so the term vanishes there."""
+    return max(K_QUAD, C_RES * math.exp(-B_RES * rho) + C_MAP * math.exp(-B_MAP * a_nodes))
 EPS = float(np.finfo(float).eps)
 
 FLOORS = {
@@ -110,18 +128,21 @@ FLOORS = {
               "mon": {"pressure_evals": 300, "wallprofile_calls": 600,
                       "wallprofile_mp_points": 3000, "gradient_calls": 300,
                       "grid_updates": 300, "grid_invariant_evaluations": 300,
-                      "wallPressure_calls": 8},
+                      "wallPressure_calls": 8, "asymmetric_tail_evals": 90},
               "cls": {"bag1": 80, "poly1": 80, "poly2": 80, "noisy-T": 60,
                       "M=40": 30, "M=50": 30, "M=64": 30, "M=80": 30, "M=100": 30,
-                      "relabelled": 60, "offset0-nonzero": 60}},
+                      "relabelled": 60, "offset0-nonzero": 60, "asymmetric-tails": 90,
+                      "grid:offEq-tails": 50, "grid:direct-tails": 25}},
     "thorough": {"distinct_nontrivial": 6000,
                  "mon": {"pressure_evals": 6000, "wallprofile_calls": 12000,
                          "wallprofile_mp_points": 60000, "gradient_calls": 6000,
                          "grid_updates": 6000, "grid_invariant_evaluations": 6000,
-                         "wallPressure_calls": 100},
+                         "wallPressure_calls": 100, "asymmetric_tail_evals": 1800},
                  "cls": {"bag1": 1500, "poly1": 1500, "poly2": 1500, "noisy-T": 1000,
                          "M=40": 600, "M=50": 600, "M=64": 600, "M=80": 600, "M=100": 600,
-                         "relabelled": 1000, "offset0-nonzero": 1000}},
+                         "relabelled": 1000, "offset0-nonzero": 1000,
+                         "asymmetric-tails": 1800, "grid:offEq-tails": 1000,
+                         "grid:direct-tails": 600}},
 }
 
 
@@ -215,6 +236,41 @@ def draw_shape(rng, nf, Tn):
     return np.array(widths), np.array(offsets)
 
 
+def remap_grid(rng, eom, wp, vmid):
+    """Map the grid to the wall shape.  55 %: the real _updateGrid as wallPressure calls it
+    with off-equilibrium disabled (equal tails).  28 %: the real _updateGrid the way an
+    off-equilibrium run of a moving plasma maps it (includeOffEq raised for this call only,
+    random mean free path): tailInside = mfp*gamma, tailOutside = mfp/gamma.  17 %: a direct
+    changePositionFalloffScale with independent admissible tails between the lower bound
+    L (1/2 + smoothing)/r and 20 L and a displaced centre.  The pressure integral must not
+    care, as long as the wall stays resolved (rho is measured on the resulting grid)."""
+    u = rng.random()
+    if u < 0.55:
+        eom._updateGrid(wp, vmid)
+        return "equal-tails"
+    g = eom.grid
+    if u < 0.83:
+        saved = (eom.includeOffEq, eom.meanFreePathScale)
+        eom._updateGrid(wp, vmid)        # to read the wall thickness the code maps to
+        L = float(g.wallThickness)
+        tmin = L * (0.5 + 1.05 * g.smoothing) / g.ratioPointsWall
+        gam = 1 / math.sqrt(1 - vmid * vmid)
+        tIn = float(math.exp(rng.uniform(math.log(1.3 * tmin), math.log(20 * L))))
+        try:
+            eom.includeOffEq = True
+            eom.meanFreePathScale = tIn / gam      # -> tailInside = tIn, tailOutside = tIn/gamma^2
+            eom._updateGrid(wp, vmid)
+        finally:
+            eom.includeOffEq, eom.meanFreePathScale = saved
+        return "offEq-tails"
+    eom._updateGrid(wp, vmid)            # wall thickness / centre as the code chooses them
+    L, c = float(g.wallThickness), float(g.wallCenter)
+    tmin = 1.02 * L * (0.5 + 1.05 * g.smoothing) / g.ratioPointsWall
+    tIn, tOut = (float(math.exp(rng.uniform(math.log(tmin), math.log(20 * L)))) for _ in range(2))
+    g.changePositionFalloffScale(tIn, tOut, L, c + float(rng.uniform(-0.7, 0.7)) * L)
+    return "direct-tails"
+
+
 def draw_temperatures(rng, fam, thermo, M, pot):
     """returns (Tminus, Tplus, profile, label).  Temperatures inside the tabulated range of
     both phases *and* inside the analytic existence interval of both (a table that reaches
@@ -252,7 +308,7 @@ def run_case(case):
     spec, fam, M = case["spec"], case["family"], case["M"]
     mon = {"pressure_evals": 0, "wallprofile_calls": 0, "wallprofile_mp_points": 0,
            "gradient_calls": 0, "grid_updates": 0, "grid_invariant_evaluations": 0,
-           "wallPressure_calls": 0}
+           "wallPressure_calls": 0, "asymmetric_tail_evals": 0}
     key0 = f"{fam}:{case['i']}:M{M}"
     sink = []
     c17_monitor.STATE.listener = c17_monitor.make_passive_listener(sink, level="exact")
@@ -351,8 +407,12 @@ def _drive(case, rng, b, ws, mon, sink, key0, WallGo, WallParams):
 
         wp = WallParams(widths=widths.copy(), offsets=offsets.copy())
         g0 = len(sink)
-        eom._updateGrid(wp, vmid)
+        gmode = remap_grid(rng, eom, wp, vmid)
         mon["grid_updates"] += 1
+        tin, tout_ = float(eom.grid.tailLengthInside), float(eom.grid.tailLengthOutside)
+        asym = max(tin, tout_) / min(tin, tout_)
+        if asym > 1.05:
+            mon["asymmetric_tail_evals"] += 1
         _grid_violations(sink, g0, viol, mon, "_updateGrid")
         n0p, n0g = recProfile.calls, recGrad.calls
         try:
@@ -441,7 +501,8 @@ def _drive(case, rng, b, ws, mon, sink, key0, WallGo, WallParams):
         # --- pressure oracle
         fdb = R.fd_rounding_bound(vmax, dx, highX - lowX)
         rho = R.resolution(eom.grid.xiValues, widths, offsets)
-        tol = quad_tol(rho) * S + 16 * fdb + 256 * EPS * (S + vmax)
+        a_nodes = float(min(eom.grid.aIn, eom.grid.aOut)) * M / math.pi
+        tol = quad_tol(rho, a_nodes) * S + 16 * fdb + 256 * EPS * (S + vmax)
         err = abs(press - dV_passed)
         row["err_vs_closed_form_minima"] = abs(press - dV_exact)
         row["endpoint_excess"] = [exc_low, exc_high]
@@ -456,8 +517,12 @@ def _drive(case, rng, b, ws, mon, sink, key0, WallGo, WallParams):
                          f"{abs(dV_exact) / S:.3f}) on {ctx}",
                          "data": {"spec": case["spec"], **row}})
         rows.append(row)
-        classes += [fam, f"M={M}", tlabel, f"nf={nf}",
-                    "resolved(rho>=3.64)" if quad_tol(rho) == K_QUAD else "coarse(rho<3.64)"]
+        row.update(grid=gmode, tail_asymmetry=asym,
+                   tail_over_L=max(tin, tout_) / float(eom.grid.wallThickness),
+                   a_nodes=a_nodes)
+        classes += [fam, f"M={M}", tlabel, f"nf={nf}", "grid:" + gmode,
+                    "asymmetric-tails" if asym > 1.05 else "symmetric-tails",
+                    "resolved(tol=1e-8)" if quad_tol(rho, a_nodes) == K_QUAD else "coarse(tol>1e-8)"]
         if case["relabelled"]:
             classes.append("relabelled")
         if offsets[0] != 0.0:
@@ -476,7 +541,7 @@ def _drive(case, rng, b, ws, mon, sink, key0, WallGo, WallParams):
            "inadmissible": n_inadm, "wallPressure": wpress,
            "all": [[r.get("err_over_S"), r.get("profile_deriv_ratio"), r.get("gradient_ratio"),
                     r.get("dV_over_S"), r.get("rounding_part"), r.get("profile_field_ratio"),
-                    r.get("rho")]
+                    r.get("rho"), r.get("tail_asymmetry"), r.get("tail_over_L"), r.get("a_nodes")]
                    for r in rows if "err" in r]}
     return {"key": key0, "cls": classes or ["no-evaluations"], "nontrivial": bool(keys),
             "obs": obs, "viol": viol, "mon": mon, "keys": keys}
@@ -547,6 +612,7 @@ def _wall_pressure_bag(case, rng, eom, pot, Tn, mon, sink, viol, classes, keys, 
         S, _ = R.integrand_scale(grad_code_fn(pot), lowX, highX, np.asarray(wpo.widths, float),
                                  np.zeros(1), Tn)
         rho = R.resolution(eom.grid.xiValues, np.asarray(wpo.widths, float), np.zeros(1))
+        a_nodes = float(min(eom.grid.aIn, eom.grid.aOut)) * eom.grid.M / math.pi
         fdb = R.fd_rounding_bound(max(abs(dU), pot.a * (1.3 * max(Tp, Tm)) ** 4),
                                   np.asarray(pot.derivativeSettings.fieldValueVariationScale,
                                              float) * 1e-3, [pot.vev()])
@@ -560,7 +626,7 @@ def _wall_pressure_bag(case, rng, eom, pot, Tn, mon, sink, viol, classes, keys, 
             classes.append("wallPressure:inadmissible-P_trace")
             out.append(rec)
             continue
-        tol = quad_tol(rho) * S + 16 * fdb + 256 * EPS * S
+        tol = quad_tol(rho, a_nodes) * S + 16 * fdb + 256 * EPS * S
         err = abs(float(press) - dU_passed)
         rec.update(dU=dU_passed, dU_closed_form_minima=dU, err=err, tol=tol, rho=rho, S=S)
         if not (np.isfinite(press) and err <= tol):
@@ -595,6 +661,8 @@ def summarize(results, tier):
                 rhos.append(float(e[6]))
                 tag = "rho<2" if e[6] < 2 else "2<=rho<3.64" if e[6] < 3.64 else "rho>=3.64"
                 by.setdefault(tag, []).append(float(e[0]))
+                if len(e) > 7 and isinstance(e[7], (int, float)):
+                    by.setdefault(("asym:" if e[7] > 1.05 else "sym:") + tag, []).append(float(e[0]))
             by.setdefault(f"{fam}:M{M}", []).append(float(e[0]))
             by.setdefault("all", []).append(float(e[0]))
             for lst, v in ((prof, e[1]), (grad, e[2]), (fld, e[5])):
